@@ -98,3 +98,6 @@ func verifSymOnly()                    { panic("intrinsic") } // this harness ha
 func verifRevidText(rev int64) []byte { panic("intrinsic") } // the text `"<rev>"` as the code formats it
 
 func verifXattrsBlob(name string) []byte { panic("intrinsic") } // arbitrary raw xattrs JSON (may be nil); concretised as a real JSON object
+
+func verifMacroCasJSON(cas uint64) []byte  { panic("intrinsic") } // JSON text of the expanded CAS macro
+func verifMacroCrcJSON(body []byte) []byte { panic("intrinsic") } // JSON text of the expanded CRC32c macro
